@@ -255,10 +255,9 @@ def run_symbolic(case, model, rng, profile=False, allow_ties=False):
 def run_plain(case, point, mode="plain", uses_rng=False):
     env = Env(mode, point=dict(point))
     env.autosample = True      # names the symbolic run never reached (it stopped early) get a sampled value
-    if uses_rng:
-        ar.install_plain(env.feed)
-    else:
-        ar.uninstall()
+    # np.random is always the replaying stub in plain runs: no oracle can know what the real generator would draw, so a
+    # run that reaches a generator the stub does not model ends as unsupported (inconclusive) instead of being judged
+    ar.install_plain(env.feed)
     try:
         out = case.run(env)
         out.notes["_any32"] = any(isinstance(a, np.ndarray) and a.dtype == np.float32 for a in env.inputs.values())
@@ -591,7 +590,7 @@ def decide_case(case, opts):
             cand = {"label": "plain run where the symbolic run is unsupported", "kind": "value", "point": _clean(pr.model),
                     "detail": "symbolic execution stopped with %s; the plain run is judged by the oracle" % pr.error[1][:160]}
             try:
-                rep = _replay(case, cand, uses_rng)
+                rep = _replay(case, cand, uses_rng or "np.random" in pr.error[1])
             except Exception as e:  # noqa: BLE001
                 rep = (False, "replay failed: %r" % (e,))
             if rep[0]:
